@@ -34,7 +34,10 @@ V6s == {Rep(16, 0), Rep(15, 0) \o <<1>>, Rep(16, 255),
         Rep(12, 0) \o <<1, 2, 3, 4>>}                                      \* IPv4-compatible, not mapped
 BadLen == {<<1>>, <<1, 2, 3>>, <<1, 2, 3, 4, 5>>, Rep(8, 1), Pfx4in6, Rep(12, 0), Rep(15, 0),
            Pfx4in6 \o <<1, 2, 3>>, Pfx4in6 \o <<1, 2, 3, 4, 5>>, Rep(17, 0), Rep(20, 7), Rep(32, 0)}
-IPs == {NilSeq, Mk(<<>>)} \cup {Mk(b) : b \in V4s \cup Mapped \cup V6s \cup BadLen}
+(* The values of the standard library's exported net.IP variables: the harness *)
+(* also passes the variables themselves (see "no hidden state" in AddrConv).   *)
+GlobalVals == {StdGlobals[n] : n \in StdGlobalNames}
+IPs == {NilSeq, Mk(<<>>)} \cup {Mk(b) : b \in V4s \cup Mapped \cup V6s \cup BadLen \cup GlobalVals}
 
 (* The n-byte mask with k leading ones.                                       *)
 CIDRMask(k, n) == [i \in 1..n |-> IF 8 * i <= k THEN 255
@@ -111,10 +114,11 @@ MembershipLemma == st.t = "net" =>
 
 Cmp(p, d) == [must |-> d, cmp |-> MembershipCompared(st.ip, st.mask, p),
               skip4in6 |-> p.ok /\ p.fam = "v6" /\ ~NetIsV4(st.ip)]
-Out == CASE st.t = "ip"  -> [t |-> "ip", ip |-> st.ip, r4 |-> R4, r6 |-> R6, rn |-> RN]
-         [] st.t = "net" -> [t |-> "net", ip |-> st.ip, mask |-> st.mask,
+Gl == GlobalsWithValue(st.ip.b)
+Out == CASE st.t = "ip"  -> [t |-> "ip", ip |-> st.ip, globals |-> Gl, r4 |-> R4, r6 |-> R6, rn |-> RN]
+         [] st.t = "net" -> [t |-> "net", ip |-> st.ip, globals |-> Gl, mask |-> st.mask,
                              p4 |-> P4, p6 |-> P6, pn |-> PN, c4 |-> Cmp(P4, D4), c6 |-> Cmp(P6, D6), cn |-> Cmp(PN, DN)]
-         [] st.t = "na"  -> [t |-> "na", ip |-> st.ip, kind |-> st.kind, zone |-> st.zone, port |-> st.port,
+         [] st.t = "na"  -> [t |-> "na", ip |-> st.ip, globals |-> Gl, kind |-> st.kind, zone |-> st.zone, port |-> st.port,
                              ap |-> AP, must |-> AddrPortDemand(st.kind, st.ip)]
 Emit == CSVWrite("%1$s", <<ToJson(Out)>>, "conv_vectors.ndjson")
 =============================================================================
